@@ -207,12 +207,13 @@ def printed_values(out, tag):
     """All values TLC printed with PrintT(<<tag, ...>>): bracket matching over
     the whole output (a value may span lines)."""
     res = []
-    key = '<<"%s"' % tag
+    key = re.compile(r'<<\s*"%s"' % re.escape(tag))
     i = 0
     while True:
-        j = out.find(key, i)
-        if j < 0:
+        m = key.search(out, i)
+        if not m:
             break
+        j = m.start()
         p = _P(out)
         p.i = j
         try:
